@@ -129,6 +129,10 @@ func (n *Nodis) Get(key string) []byte {
 			return nil
 		}
 		v = meta.value.(*str.String).Get()
+		if v == nil {
+			// the key exists: its value is the empty string, nil means that there is no such key
+			v = []byte{}
+		}
 		return nil
 	})
 	return v
@@ -145,6 +149,9 @@ func (n *Nodis) MGet(keys ...string) [][]byte {
 			}
 			if s, ok := meta.value.(*str.String); ok {
 				values[i] = s.Get()
+				if values[i] == nil {
+					values[i] = []byte{}
+				}
 			}
 			return nil
 		})
